@@ -327,6 +327,7 @@ static void case_tuple(Rng& r) {
   const bool ordered = r.coin();
   const unsigned src = static_cast<unsigned>(r.below(10));
   std::string desc;
+  bool has_long = false;
   std::unique_ptr<CS> sk;
   auto fill = [&](typename T::Update& u, uint64_t n, uint64_t base) {
     for (uint64_t i = 0; i < n; ++i) { u.update(base + i, T::value(r)); if (r.chance(0.2)) u.update(base + r.below(i + 1), T::value(r)); }
@@ -334,6 +335,7 @@ static void case_tuple(Rng& r) {
   if (src <= 5) {
     const char* cls; const uint64_t n = gen_n(r, k, &cls);
     auto u = T::build(c); fill(u, n, r.next() >> 8);
+    { S li; if (n > 0 && n < k && c.p == 1.0f && r.chance(0.15) && LongItem<S>::make(r, li)) { u.update(static_cast<uint64_t>(12345), li); has_long = true; } }   // > 64 KiB summary
     if (r.chance(0.3)) u.trim();
     sk.reset(new CS(u.compact(ordered)));
     desc = std::string("compact-of-update cls=") + cls + " n=" + std::to_string(n);
@@ -386,7 +388,8 @@ static void case_tuple(Rng& r) {
     else if (op == 1) { auto un = typename tuple_union<S, typename T::Merge>::builder().set_lg_k(5).set_seed(seed).build(); un.update(s); un.update(p); tuple_intersection<S, typename T::Merge> in(seed); in.update(un.get_result()); in.update(s); s = in.get_result(ord); }
     else { tuple_a_not_b<S> anb(seed); s = anb.compute(s, p, ord); }
   };
-  roundtrip(o, *sk, r, G().cur_desc);
+  const Result res = roundtrip(o, *sk, r, G().cur_desc);
+  if (has_long && res.ok && res.image.size() > 65536) count("tuple_long_string_in_image");
 }
 
 #endif
